@@ -434,7 +434,7 @@ def hexof(objs):
 
 # ---------------------------------------------------------------- oracles
 MARKER_PROPS = {
-    "GUARD": {"C02", "C10", "C17"},
+    "GUARD": {"C02", "C10", "C17", "C09", "C01", "C12", "C11"},
     "BADFREE": {"C07", "C17"},
     "LIFE": {"C06", "C17"},
     "PATHERR access-paths": {"C11"},
@@ -938,10 +938,14 @@ def oracle_C18(L, K, lines, steps, spec):
                 v.append("step %d %s: empty vector has data_begin() %d != data_end() %d" % (i, sp["op"], ov["dbeg"], ov["dend"]))
             if not (0 <= ov["dbeg"] <= ov["cons"]):
                 v.append("step %d %s: data_begin() of empty vector outside its block (offset %d)" % (i, sp["op"], ov["dbeg"]))
+    # ... and then it behaves like any other vector: contents and alignment of what is stored afterwards
+    v += oracle_C03(L, K, lines, steps, spec)
+    v += content_mismatches(L, steps, spec)
     return v[:5]
 
 
 # ---------------------------------------------------------------- comparisons
+
 def obj_key(p, o):
     """total order key of one object = the value type's own operator<"""
     if p.ty in (lay.TUINT, lay.TU8, lay.TBYTE):
@@ -1293,9 +1297,17 @@ def less_product_order_key(prop, v):
 KEYS["less-product-order"] = less_product_order_key
 
 
+# findings the model carries exactly: a violation only counts as that finding when the model
+# predicts the very same observations (modulo alarm lines) - a different defect at the same
+# call site changes what the implementation does and is reported as a violation
+MODEL_CARRIES = {"needed-tail-after-varying", "move-assign-units", "less-product-order"}
+
+
 def known_key(prop, v, known):
     for k in known:
         f = KEYS.get(k["key"])
         if f is not None and f(prop, v):
+            if k["key"] in MODEL_CARRIES and not v.get("model_agrees", False):
+                continue
             return k
     return None
